@@ -69,6 +69,49 @@ fn mutate(rng: &mut impl Rng, s: &str, edits: usize) -> String {
     cs.into_iter().collect()
 }
 
+/// the same judgement through the places that USE the helper: the messages JsonError and QueryParamError build
+/// for an unknown key and an unknown value (wording-free: every accepted name is quoted once, the due
+/// suggestion once more, the received string wherever it equals a name)
+pub fn check_call_sites(received: &str, accepted: &[String]) -> Result<(), (String, String)> {
+    use deserr::errors::{JsonError, QueryParamError};
+    use dv_core::trace::RKind;
+    let due: Option<&String> = reference(received, accepted).map(|i| &accepted[i]);
+    let kinds = [
+        ("unknown-key", RKind::UnknownKey { key: received.to_string(), accepted: accepted.to_vec() }),
+        ("unknown-value", RKind::UnknownValue { value: received.to_string(), accepted: accepted.to_vec() }),
+    ];
+    for (kname, kind) in &kinds {
+        let msgs: Vec<(&str, Option<String>)> = vec![
+            ("JsonError", std::panic::catch_unwind(|| dv_core::oracles::rerender::<JsonError>(kind, &[]).map(|e| e.to_string())).map_err(|_| ()).ok().flatten()),
+            ("QueryParamError", std::panic::catch_unwind(|| dv_core::oracles::rerender::<QueryParamError>(kind, &[]).map(|e| e.to_string())).map_err(|_| ()).ok().flatten()),
+        ];
+        for (flavour, msg) in msgs {
+            let Some(msg) = msg else {
+                return Err((format!("call-site|{flavour}|{kname}|panic"), format!("building the {flavour} message for {received:?} / {accepted:?} panicked")));
+            };
+            for a in accepted {
+                if accepted.iter().filter(|x| *x == a).count() > 1 || a.is_empty() {
+                    continue;
+                }
+                // names that contain another quoted name or the received string cannot be counted reliably
+                if accepted.iter().any(|b| b != a && b.contains(a.as_str())) || (received != a && received.contains(a.as_str())) {
+                    continue;
+                }
+                let n = msg.matches(&format!("`{a}`")).count();
+                let want = 1 + (due == Some(a)) as usize + (received == a) as usize;
+                if n != want {
+                    let what = if n < want { "suggestion-missing" } else { "spurious-suggestion" };
+                    return Err((
+                        format!("call-site|{flavour}|{kname}|{what}"),
+                        format!("{flavour} message {msg:?} for received {received:?}, accepted {accepted:?} names `{a}` {n} time(s); {want} expected (the suggestion due is {due:?})"),
+                    ));
+                }
+            }
+        }
+    }
+    Ok(())
+}
+
 pub fn run(tier: Tier) -> i32 {
     let mut rep = Report::new(
         "C18",
@@ -199,7 +242,9 @@ pub fn run(tier: Tier) -> i32 {
                             let acc: Vec<&str> = accepted.iter().map(|s| s.as_str()).collect();
                             st.samples.push(json!({"received": received, "accepted": accepted, "output": did_you_mean(&received, &acc)}));
                         }
-                        if let Err((sig, what)) = check(&received, &accepted) {
+                        let verdict = check(&received, &accepted).and_then(|_| if i % 4 == 0 { check_call_sites(&received, &accepted) } else { Ok(()) });
+                        if let Err((sig, what)) = verdict {
+                            let check = |r: &str, a: &[String]| check(r, a).and_then(|_| check_call_sites(r, a));
                             if fails.iter().all(|f: &(String, String, String, Vec<String>)| f.0 != sig) {
                                 // shrink: drop candidates, then characters, keeping the signature
                                 let (mut r, mut acc) = (received.clone(), accepted.clone());
@@ -258,7 +303,7 @@ pub fn replay(j: &serde_json::Value) -> i32 {
         .as_array()
         .map(|a| a.iter().filter_map(|x| x.as_str().map(|s| s.to_string())).collect())
         .unwrap_or_default();
-    match check(&received, &accepted) {
+    match check(&received, &accepted).and_then(|_| check_call_sites(&received, &accepted)) {
         Ok(()) => {
             println!("C18 replay: holds for ({received:?}, {accepted:?})");
             0
